@@ -20,7 +20,7 @@ RULE = (
     "quarter, middle, at upper} x 11 sample values from 0 to overshoots of many widths (one perturbation per sample, the "
     "second variable gets the samples in a different order), with and without a VariableScaler. Oracle in the user domain: "
     "raw = x + m*s; NONE -> raw; TRUNCATE -> clip; MIRROR -> raw if inside, the single reflection if it lands inside, "
-    "otherwise the folded value or a bound value is required. Checked on the evaluator rows and on reported perturbed_variables. "
+    "otherwise the folded value or a bound value is required. Checked on the evaluator rows and on reported perturbed_variables; the injected sampler returns the same stored array on every call and a second evaluation on the same evaluator must reproduce the first. "
     "Plus: three injected samplers with distinct designs and EVERY assignment of sampler ids to the variables (ids may skip "
     "one) x boundary types: each variable is perturbed by its assigned sampler; three variables with EVERY assignment of "
     "absolute / relative types and distinct magnitudes and ranges, also with ONE validated GradientConfig object reused by "
@@ -115,7 +115,8 @@ def judge(case: dict[str, Any]) -> Judgement:
             "perturbation_types": [s["ptype"] for s in settings],
             "boundary_types": [s["btype"] for s in settings],
         },
-        "samplers": [{"method": "verif/design", "options": {"design": design}, "shared": True}],
+        # the injected sampler keeps its samples and returns the same array on every call (see the second evaluation)
+        "samplers": [{"method": "verif/design", "options": {"design": design, "reuse": True}, "shared": True}],
     }
     transforms = None
     if case["scaler"]:
@@ -156,6 +157,14 @@ def judge(case: dict[str, Any]) -> Judgement:
                     if not any(abs(got - c) <= t2 * (1 + abs(c)) for c in (value, lb, ub)):
                         j.fail(f"{bt}:multi-width-overshoot-neither-reflected-nor-bound", where=name, variable=v, x=xs[v], sample=s,
                                observed=got, fold=value, lb=lb, ub=ub)
+    # a second gradient evaluation at the same point on the same evaluator: same samples, same perturbed vectors
+    results2 = ens.calculate(x_opt, compute_functions=True, compute_gradients=True)
+    gres2 = next(item for item in results2 if isinstance(item, GradientResults))
+    if not np.array_equal(np.asarray(gres2.evaluations.perturbed_variables), np.asarray(gres.evaluations.perturbed_variables)):
+        j.fail("second-evaluation-perturbed-differently", first=np.asarray(gres.evaluations.perturbed_variables)[0][:3],
+               second=np.asarray(gres2.evaluations.perturbed_variables)[0][:3])
+    if not np.array_equal(evaluator.calls[1].variables, evaluator.calls[0].variables):
+        j.fail("second-evaluation-rows-differ")
     j.outcome = f"bt={s0['btype']}{s1['btype']}/bk={s0['bk'][0]}{s1['bk'][0]}/pt={s0['ptype']}{s1['ptype']}"
     return j
 
